@@ -1,4 +1,4 @@
-import GixModel.Lemmas.C52Rfc
+import GixModel.Lemmas.C52Casc5
 /-
 C52 — Dates format and parse consistently.  PROPERTY THEOREMS ONLY.
 
@@ -128,6 +128,49 @@ example : format .raw ⟨i64Lo, -35940, true⟩ = .ok [45, 57, 50, 50, 51, 51, 5
 theorem unix_roundtrip (t : Time) (hlo : i64Lo ≤ t.seconds) (hhi : t.seconds ≤ i64Hi) :
     ∃ text, format .unix t = .ok text ∧ parseIntIn i64Lo i64Hi text = some t.seconds :=
   ⟨intDec t.seconds, rfl, parseIntIn_intDec _ _ _ hlo hhi⟩
+
+/-! ### through the whole cascade of `parse()` -/
+
+/-- `format_parse_through_cascade`: `parse(format(fmt, t))` for the real cascade of `gix_date::parse` — the
+special-case text, then `Date::strptime(SHORT)`, jiff's RFC 2822 parser, ISO8601, ISO8601_STRICT, GITOXIDE,
+DEFAULT, `i64::from_str`, `parse_raw` in the extracted order — where every branch BEFORE the one meant for
+the text is proved to reject it. For every time in jiff's range whose sign field agrees with the offset:
+ISO8601, ISO8601_STRICT, GITOXIDE and DEFAULT give back exactly `t`. -/
+theorem format_parse_through_cascade (t : Time) (hr : InRange t) (hs : SignOk t) :
+    (∃ text, format (.custom Extracted.dateFmtIso8601) t = .ok text ∧ parse text = .ok t) ∧
+    (∃ text, format (.custom Extracted.dateFmtIso8601Strict) t = .ok text ∧ parse text = .ok t) ∧
+    (∃ text, format (.custom Extracted.dateFmtGitoxide) t = .ok text ∧ parse text = .ok t) ∧
+    (∃ text, format (.custom Extracted.dateFmtDefault) t = .ok text ∧ parse text = .ok t) :=
+  ⟨iso_through_cascade t hr hs, strict_through_cascade t hr hs, gitoxide_through_cascade t hr hs,
+   default_through_cascade t hr hs⟩
+
+/-- … RFC2822 and GIT_RFC2822 (years 0..9999, offsets of whole minutes) give back exactly `t` -/
+theorem format_parse_through_cascade_rfc2822 (t : Time) (hr : InRange t) (hs : SignOk t)
+    (hy : 0 ≤ (breakDown t.seconds t.offset).year) (hmin : t.offset % 60 = 0) :
+    (∃ text, format (.custom Extracted.dateFmtRfc2822) t = .ok text ∧ parse text = .ok t) ∧
+    (∃ text, format (.custom Extracted.dateFmtGitRfc2822) t = .ok text ∧ parse text = .ok t) :=
+  ⟨rfc_through_cascade _ false extracted_rfc_ok.1 t hr hs hy hmin,
+   rfc_through_cascade _ true extracted_rfc_ok.2 t hr hs hy hmin⟩
+
+/-- … SHORT, with its truncation stated exactly: the text is the local day, and `parse` reads it as that
+day's midnight UTC (offset 0) — or fails when that midnight lies outside jiff's timestamp range (the
+three edge days of the known finding) -/
+theorem format_parse_through_cascade_short (t : Time) (hr : InRange t) :
+    ∃ text, format (.custom Extracted.dateFmtShort) t = .ok text ∧
+      parse text = (if (t.seconds + t.offset) / 86400 * 86400 < tsMin ∨ (t.seconds + t.offset) / 86400 * 86400 > tsMax then .err
+                    else .ok ⟨(t.seconds + t.offset) / 86400 * 86400, 0, false⟩) :=
+  short_through_cascade t hr
+
+/-- … UNIX for ALL i64 seconds (offset 0 comes back) -/
+theorem format_parse_through_cascade_unix (t : Time) (hlo : i64Lo ≤ t.seconds) (hhi : t.seconds ≤ i64Hi) :
+    ∃ text, format .unix t = .ok text ∧ parse text = .ok ⟨t.seconds, 0, false⟩ :=
+  unix_through_cascade t hlo hhi
+
+/-- … RAW for ALL i64 seconds, offsets of whole minutes below 100 hours, the sign field kept -/
+theorem format_parse_through_cascade_raw (t : Time) (hlo : i64Lo ≤ t.seconds) (hhi : t.seconds ≤ i64Hi)
+    (hmin : t.offset % 60 = 0) (hsg : (t.minus = true → t.offset ≤ 0) ∧ (t.minus = false → 0 ≤ t.offset))
+    (text : Bytes) (hf : format .raw t = .ok text) : parse text = .ok t :=
+  raw_through_cascade t hlo hhi hmin hsg text hf
 
 /-! ### the property as stated, and why it does not hold as stated -/
 
